@@ -51,6 +51,17 @@ Theorem C07_foreign_release_no_offset : forall a b id base, existsb (allocates i
 Proof. exact foreign_release_no_offset. Qed.
 Print Assumptions C07_foreign_release_no_offset.
 
+(* ... at the level of whole runs: deleting from the executed statements of one test the release of a block that test had
+   not allocated before (an earlier test's block, an outside block, a NULL pointer) changes no test's failures, verdict or report *)
+Theorem C07_foreign_release_changes_no_verdict : forall pre P Q t t' tail tail' k k' j A B id,
+  executed t = A ++ SFree id :: B -> executed t' = A ++ B -> t_before t = t_before t' ->
+  existsb (allocates id) A = false ->
+  valid (mkS pre (P ++ t :: Q) tail k) = true -> valid (mkS pre (P ++ t' :: Q) tail' k') = true ->
+  (j < length (P ++ t :: Q))%nat ->
+  item_same (nth j (o_tests (run (mkS pre (P ++ t :: Q) tail k))) no_item) (nth j (o_tests (run (mkS pre (P ++ t' :: Q) tail' k'))) no_item).
+Proof. exact foreign_release_changes_no_verdict. Qed.
+Print Assumptions C07_foreign_release_changes_no_verdict.
+
 (* before every preTestAction the plugin's flags are back at their defaults: nothing carries over to the next test *)
 Theorem C07_flags_reset : forall s k, valid s = true ->
   let w := world_before_pre s k in w_ignore w = false /\ w_expected w = 0 /\ w_err w = false.
